@@ -765,7 +765,7 @@ func kwIllFormed(k string) bool {
 }
 func needsEscape(k string) bool { return types.EncodeName(k) != k }
 
-type taint struct{ kwSep, hash, nul, esc, rmAll, nfs3, dupAtt bool }
+type taint struct{ kwSep, hash, nul, esc, rmAll, nfs3, dupAtt, noInfo, prAllLive bool }
 
 func (t *taint) see(o op, st *store) {
 	switch o.code {
@@ -854,12 +854,135 @@ func (o op) human() string {
 // history runs one history; returns false when the oracle stopped it.
 func history(r *vh.Run, ver string, ops []op, gen func(st *store) op, n int, tmp string, useOracle bool) {
 	vn := int(ver[0]-'0')*10 + int(ver[2]-'0')
-	vn0 := vn
-	doc := makePDF(ver)
+	historyFrom(r, start{doc: makePDF(ver), init: strconv.FormatInt(int64(vn), 16), ver: ver, hasInfo: false}, ops, gen, n, tmp, useOracle)
+}
+
+// start is a starting document: init is its description for the model ("" = no K),
+// kw the keywords its Info dictionary and its catalog XMP packet carry.
+type start struct {
+	doc     []byte
+	init    string
+	ver     string
+	desc    string
+	hasInfo bool
+	xmpLive bool     // the XMP packet has pdf:Keywords that a read merges in
+	kw      []string // expected initial listing (generated documents)
+	corpus  bool     // initial store = initial listing
+}
+
+func xmlEsc(s string) string {
+	return strings.NewReplacer("&", "&amp;", "<", "&lt;", ">", "&gt;").Replace(s)
+}
+
+// xmpPDF builds the small PDF with a catalog /Metadata XMP packet.
+// xmpKw == nil: packet without pdf:Keywords. infoKw == nil: Info without /Keywords.
+func xmpPDF(ver string, hasInfo bool, infoKw []string, infoSep string, xmpKw []string, xmpSep string, xmpTag bool) start {
+	var b bytes.Buffer
+	offs := []int{}
+	obj := func(s string) {
+		offs = append(offs, b.Len())
+		fmt.Fprintf(&b, "%d 0 obj\n%s\nendobj\n", len(offs), s)
+	}
+	b.WriteString("%PDF-" + ver + "\n")
+	obj("<< /Type /Catalog /Pages 2 0 R /Metadata 5 0 R >>")
+	obj("<< /Type /Pages /Kids [3 0 R] /Count 1 >>")
+	obj("<< /Type /Page /Parent 2 0 R /MediaBox [0 0 200 300] /Resources << >> /Contents 4 0 R >>")
+	content := "0 0 m 10 100 l S"
+	obj(fmt.Sprintf("<< /Length %d >>\nstream\n%s\nendstream", len(content), content))
+	xt := strings.Join(xmpKw, xmpSep)
+	tag := ""
+	if xmpTag {
+		tag = "<pdf:Keywords>" + xmlEsc(xt) + "</pdf:Keywords>"
+	}
+	x := `<?xpacket begin="" id="W5M0MpCehiHzreSzNTczkc9d"?><x:xmpmeta xmlns:x="adobe:ns:meta/"><rdf:RDF xmlns:rdf="http://www.w3.org/1999/02/22-rdf-syntax-ns#"><rdf:Description rdf:about="" xmlns:pdf="http://ns.adobe.com/pdf/1.3/">` +
+		tag + `<pdf:Producer>gen</pdf:Producer></rdf:Description></rdf:RDF></x:xmpmeta><?xpacket end="w"?>`
+	obj(fmt.Sprintf("<< /Type /Metadata /Subtype /XML /Length %d >>\nstream\n%s\nendstream", len(x), x))
+	tr := ""
+	it := strings.Join(infoKw, infoSep) // ASCII without ( ) \
+	if hasInfo {
+		e := "/Title (t)"
+		if infoKw != nil {
+			e += " /Keywords (" + it + ")"
+		}
+		obj("<< " + e + " >>")
+		tr = " /Info 6 0 R"
+	}
+	xr := b.Len()
+	fmt.Fprintf(&b, "xref\n0 %d\n0000000000 65535 f \n", len(offs)+1)
+	for _, o := range offs {
+		fmt.Fprintf(&b, "%010d 00000 n \n", o)
+	}
+	fmt.Fprintf(&b, "trailer\n<< /Size %d /Root 1 0 R%s >>\nstartxref\n%d\n%%%%EOF\n", len(offs)+1, tr, xr)
+	vn := int(ver[0]-'0')*10 + int(ver[2]-'0')
+	h, ik, xs := "0", "-", "n"
+	if hasInfo {
+		h = "1"
+		if infoKw != nil {
+			ik = runes(it)
+		}
+	}
+	if xmpTag {
+		xs = runes(xt)
+	}
+	st := start{doc: b.Bytes(), ver: ver, hasInfo: hasInfo,
+		init: strconv.FormatInt(int64(vn), 16) + "|" + h + "|" + ik + "|" + xs,
+		desc: fmt.Sprintf("generated PDF %s, Info=%v /Keywords=%q, catalog XMP pdf:Keywords=%q (tag %v)", ver, hasInfo, it, xt, xmpTag)}
+	set := map[string]bool{}
+	if hasInfo {
+		for _, k := range infoKw {
+			set[k] = true
+		}
+	}
+	if vn >= 14 && xmpTag {
+		for _, k := range xmpKw {
+			set[k] = true
+			st.xmpLive = true
+		}
+	}
+	st.kw = sortedKeys(set)
+	return st
+}
+
+func historyFrom(r *vh.Run, s0 start, ops []op, gen func(st *store) op, n int, tmp string, useOracle bool) {
+	ver := s0.ver
+	vn := int(ver[0]-'0')*10 + int(ver[2]-'0')
+	doc := s0.doc
 	st := newStore()
 	var t taint
+	t.noInfo = !s0.hasInfo && s0.xmpLive
+	xmpLive := s0.xmpLive
 	var wires, humans []string
 	oracle := useOracle
+	if s0.corpus || s0.kw != nil {
+		got := observe(doc)
+		if got.bad != "" {
+			r.OracleFail("start-document-unreadable", map[string]any{"start": s0.desc}, hexs(got.errs))
+			return
+		}
+		if s0.corpus { // the store starts as what the document lists
+			for _, k := range got.kw {
+				st.kw[k] = true
+			}
+			for k, v := range got.pr {
+				st.pr[k] = v
+			}
+			st.pl, st.pm, st.vp = got.pl, got.pm, got.vp
+			for k, v := range got.att {
+				st.att[k] = v
+			}
+		} else {
+			for _, k := range s0.kw {
+				st.kw[k] = true
+			}
+			if oracle {
+				if d := eqObs(got, st.obs()); d != "" {
+					r.OracleFail("start-listing:"+d, map[string]any{"start": s0.desc}, "listed "+got.show()+" ; the document carries "+st.obs().show())
+					return
+				}
+				r.OracleOK()
+			}
+		}
+	}
 	for i := 0; i < n; i++ {
 		var o op
 		if ops != nil {
@@ -873,6 +996,10 @@ func history(r *vh.Run, ver string, ops []op, gen func(st *store) op, n int, tmp
 		r.Count("op:" + o.code)
 		out, ok, pan := apply(doc, o, tmp)
 		input := map[string]any{"version": ver, "history": humans, "wire": wires}
+		if s0.desc != "" {
+			input["start"] = s0.desc
+			input["init"] = s0.init
+		}
 		if pan != "" {
 			r.OracleFail("panic:"+o.code, input, pan)
 			return
@@ -881,10 +1008,22 @@ func history(r *vh.Run, ver string, ops []op, gen func(st *store) op, n int, tmp
 		cur := vn // version the operation saw
 		if ok {
 			vn = 17 // write.go: every written document has the header %PDF-1.7
+			t.noInfo = false
+			switch {
+			case o.code == "KA" || o.code == "KR":
+				xmpLive = false // finalizeKeywords / remove all: the XMP keywords are scrubbed
+			case o.code == "PR" && len(o.strs) == 0:
+				if xmpLive {
+					t.prAllLive = true
+				}
+				xmpLive = false
+			}
 		}
 		got := observe(doc)
-		args := append([]string{strconv.FormatInt(int64(vn0), 16)}, wires...)
-		r.Case("hist", args, "st="+vh.Bool(ok)+";"+got.show())
+		if s0.init != "" {
+			args := append([]string{s0.init}, wires...)
+			r.Case("hist", args, "st="+vh.Bool(ok)+";"+got.show())
+		}
 		if !oracle {
 			continue
 		}
@@ -901,6 +1040,10 @@ func history(r *vh.Run, ver string, ops []op, gen func(st *store) op, n int, tmp
 				class = "remove-all-properties-keeps-escaped-name"
 			case d == "kw" && t.kwSep:
 				class = "keyword-with-separator-or-outer-blank"
+			case d == "kw" && t.noInfo && (o.code == "KR"):
+				class = "keyword-remove-refused-without-info-dict"
+			case d == "kw" && t.prAllLive:
+				class = "remove-all-properties-drops-xmp-keywords"
 			case (d == "vp" || d == "unreadable") && t.nfs3:
 				class = "viewerpref-nfspagemode-useoc-written-as-fullscreen"
 			}
@@ -1017,6 +1160,99 @@ func main() {
 			history(r, "1.7", []op{{code: "KA", strs: []string{k}}}, nil, 1, tmp, true)
 			history(r, "1.7", []op{pa(k, "v"+string(c))}, nil, 1, tmp, true)
 		}
+	}
+
+	// ---- starting documents with catalog XMP metadata (pdf:Keywords merged in on read,
+	// scrubbed by every keyword edit): the FIRST keyword operations are by-name removals
+	xk := []string{"x1", "x2", "ключ", "in ner", "a&b", "<x>", "日本"}
+	ik := []string{"i1", "x2", "in fo"}
+	var starts []start
+	for _, ver := range []string{"1.4", "1.6", "1.7"} {
+		starts = append(starts,
+			xmpPDF(ver, true, nil, "", xk[:3], "; ", true),
+			xmpPDF(ver, true, ik, ", ", xk, ", ", true),
+			xmpPDF(ver, true, ik[:1], "; ", xk[3:], ";", true),
+			xmpPDF(ver, true, ik, "; ", nil, "", false), // packet without pdf:Keywords
+			xmpPDF(ver, true, nil, "", []string{}, "", true), // empty pdf:Keywords element
+			xmpPDF(ver, false, nil, "", xk[:2], "; ", true)) // no Info dictionary
+	}
+	kr := func(k ...string) op { return op{code: "KR", strs: k} }
+	ka := func(k ...string) op { return op{code: "KA", strs: k} }
+	kwAt := func(s0 start, i int) string {
+		if len(s0.kw) == 0 {
+			return "zz"
+		}
+		return s0.kw[i%len(s0.kw)]
+	}
+	for _, s0 := range starts {
+		hs := [][]op{
+			{kr(kwAt(s0, 0)), kr(kwAt(s0, 1)), ka("n"), kr(), kr()},
+			{kr("zz"), kr(kwAt(s0, 0), kwAt(s0, 2)), {code: "LS", v: 1}, ka(kwAt(s0, 0))},
+			{{code: "LS", v: 2}, kr(kwAt(s0, len(s0.kw)-1+len(s0.kw))), pa("k", "v"), {code: "MS", v: 1}, kr()},
+			{ka("n"), {code: "PR"}, kr("n"), kr(kwAt(s0, 0))},
+			{kr(), ka(kwAt(s0, 0))},
+			{{code: "PR"}, ka("n")}, // "remove all properties" also drops the catalog XMP
+		}
+		for _, h := range hs {
+			historyFrom(r, s0, h, nil, len(h), tmp, true)
+		}
+	}
+	// before PDF 1.4 the Root entry Metadata is not evaluated (the first write makes the
+	// document 1.7, then it is): K only
+	for _, s0 := range []start{xmpPDF("1.2", true, ik[:2], ", ", xk[:3], "; ", true), xmpPDF("1.2", false, nil, "", xk[:2], "; ", true)} {
+		for _, h := range [][]op{{kr("x2"), kr("x1"), ka("n")}, {{code: "LS", v: 1}, kr("x1")}, {ka("n"), kr()}, {{code: "PR"}, ka("n")}} {
+			historyFrom(r, s0, h, nil, len(h), tmp, false)
+		}
+	}
+	nx := r.Pick(90, 900)
+	for i := 0; i < nx; i++ {
+		s0 := starts[r.Rand.Intn(len(starts))]
+		vn := int(s0.ver[0]-'0')*10 + int(s0.ver[2]-'0')
+		g := genCfg{defects: i%5 == 4}
+		n := 2 + r.Rand.Intn(r.Pick(6, 8))
+		step := 0
+		first := 1 + r.Rand.Intn(2)
+		historyFrom(r, s0, nil, func(st *store) op {
+			step++
+			ks := sortedKeys(st.kw)
+			if step <= first && len(ks) > 0 {
+				o := kr(ks[r.Rand.Intn(len(ks))])
+				if r.Rand.Intn(3) == 0 {
+					o.strs = append(o.strs, ks[r.Rand.Intn(len(ks))])
+				}
+				return o
+			}
+			return genOp(r, g, vn, st)
+		}, n, tmp, true)
+	}
+	// corpus documents with catalog XMP keywords (O only: the store starts as what they list)
+	for _, f := range []string{"pkg/testdata/WaldenFull.pdf", "pkg/samples/signatures/adbe.pkcs7.detached/usageRights.pdf"} {
+		repo := os.Getenv("VERIF_REPO")
+		if repo == "" {
+			repo = "/repo"
+		}
+		b, err := os.ReadFile(filepath.Join(repo, f))
+		if err != nil {
+			r.Count("corpus-missing:" + f)
+			continue
+		}
+		s0 := start{doc: b, ver: "1.7", desc: f, hasInfo: true, corpus: true, xmpLive: true}
+		step := 0
+		historyFrom(r, s0, nil, func(st *store) op {
+			step++
+			ks := sortedKeys(st.kw)
+			switch {
+			case step == 1 && len(ks) > 0:
+				return kr(ks[0])
+			case step == 2:
+				return ka("n", "ключ")
+			case step == 3:
+				return kr("n")
+			case step == 4:
+				return pa("c35k", "v")
+			}
+			return kr()
+		}, 5, tmp, true)
 	}
 
 	// random histories
